@@ -5,6 +5,7 @@ import (
 
 	an "github.com/benoitkugler/gomacro/analysis"
 	gen "github.com/benoitkugler/gomacro/generator"
+	"golang.org/x/tools/go/packages"
 )
 
 func e2eRealErrors(errs []string) []string {
@@ -28,16 +29,21 @@ func HC01_gounionsCompiles() {
 		"type Holder struct {\n\tL Shapes\n\tM ShapeMap\n}\n",
 		"type Holder struct {\n\tS Shape\n\tO Other\n\tInner Inner\n}\n\ntype Inner struct{ S Shape }\n",
 		"type Holder struct {\n\tS Shape `gomacro:\"ignore\"`\n\tT Shape\n}\n",
+		// types of another package: direct fields, an embedded struct whose fields mention its own named types
+		"type Holder struct {\n\tgeo.Base\n\tS Shape\n\tU geo.Unit\n\tP *geo.Base\n\tL []geo.Unit\n}\n",
+		"type Holder struct {\n\tLocal\n\tS Shape\n}\n\ntype Local struct {\n\tgeo.Base\n\tM map[geo.Unit]geo.Base\n}\n",
 	}
 	unionName := []string{"Shape", "S"}[vfChoice("unionName", 2)]
-	src := "package p\n\n" +
+	geo := vfTypeCheck("example.com/mod/geo", []string{"/m/geo/geo.go"}, []string{
+		"package geo\n\ntype Unit string\n\ntype Base struct {\n\tUnit Unit `json:\"unit\"`\n\tScale int\n\tKinds []Unit\n}\n"}, nil)
+	src := "package p\n\nimport \"example.com/mod/geo\"\n\nvar _ geo.Unit\n\n" +
 		"type Shape interface{ isShape() }\n\ntype Other interface{ isOther() }\n\n" +
 		"type Shapes []Shape\n\ntype ShapeMap map[string]Shape\n\n" +
 		"type Circle struct{ R int }\n\nfunc (Circle) isShape() {}\nfunc (Circle) isOther() {}\n\n" +
 		"type Square struct{ W float64 }\n\nfunc (Square) isShape() {}\n\n" +
 		holders[vfChoice("holder", len(holders))]
 	src = strings.ReplaceAll(src, "Shape", unionName+"hape")
-	pkg := vfTypeCheck("example.com/mod/p", []string{"/m/p/p.go"}, []string{src}, nil)
+	pkg := vfTypeCheck("example.com/mod/p", []string{"/m/p/p.go"}, []string{src}, []*packages.Package{geo})
 	var text string
 	panicked, rt, msg := vfCatch(func() {
 		ana := an.NewAnalysisFromFile(pkg, "/m/p/p.go")
@@ -48,7 +54,11 @@ func HC01_gounionsCompiles() {
 	if panicked {
 		vfStop()
 	}
-	errs := e2eRealErrors(vfTypeErrors("example.com/mod/p", []string{"/m/p/p.go", "/m/p/gen.go"}, []string{src, text}, nil))
+	// what goimports does for the tool: the import of the other package of the module is added when missing
+	if !strings.Contains(text, "\"example.com/mod/geo\"") {
+		text = strings.Replace(text, "import \"encoding/json\"", "import \"encoding/json\"\nimport \"example.com/mod/geo\"\n", 1)
+	}
+	errs := e2eRealErrors(vfTypeErrors("example.com/mod/p", []string{"/m/p/p.go", "/m/p/gen.go"}, []string{src, text}, []*packages.Package{geo}))
 	if len(errs) > 0 {
 		vfObserve("error", errs[0])
 	}
